@@ -83,7 +83,7 @@ def run_core(ctx, mode):
     n = 250 if quick else 4000
     rc = []
     for i in range(n):
-        c = gen_core.gen_case(ctx.seed, i, n_states=4, n_calls=3)
+        c = gen_core.gen_case(ctx.seed, i, n_states=4, n_calls=3, with_eqonly=(i % 5 == 4))
         if i % 2 == 1:
             c["layout"] = ctx.seed * 100000 + i
         if i % 4 >= 2:
